@@ -75,9 +75,13 @@ def fresh_replay(doc, keep_path=None):
 # --------------------------------------------------------------------------
 # running jobs
 
+_JOBSEQ = [0]
+
+
 def run_job(prop, job, active_kf, seed, scratch_root):
     name = job['name']
-    safe = re.sub(r'[^A-Za-z0-9_.=-]+', '_', name)[:120]
+    _JOBSEQ[0] += 1
+    safe = '%04d_' % _JOBSEQ[0] + re.sub(r'[^A-Za-z0-9_.=-]+', '_', name)[:110]
     scratch = os.path.join(scratch_root, safe)
     os.makedirs(scratch, exist_ok=True)
     spec = dict(module=job['module'], func=job['func'], params=job.get('params', {}),
@@ -177,7 +181,8 @@ def check_property(prop, tier, seed=0, only=None, verbose=False):
             if r.get('worker_error'):
                 harness_errors.append(r['name'])
             continue
-        safe = re.sub(r'[^A-Za-z0-9_.=-]+', '_', r['name'])[:120]
+        import hashlib
+        safe = re.sub(r'[^A-Za-z0-9_.=-]+', '_', r['name'])[:110] + '_' + hashlib.md5(r['name'].encode()).hexdigest()[:6]
         path = os.path.join(VERIF, 'replays', '%s__%s.json' % (prop, safe))
         doc = dict(property=prop, job=r['name'], module=r['spec']['module'], func=r['spec']['func'],
                    params=r['spec']['params'], values=r['counterexample']['values'],
